@@ -82,7 +82,6 @@ def _unsup(name):
 while_symbolic = _unsup('while with symbolic condition (needs an invariant)')
 seq_concat = _unsup('sequence concatenation')
 seq_slice = _unsup('sequence slice')
-seq_sum = _unsup('sum over sequence')
 def seq_reversed(I, pipe):
     """reversed(S): the same elements in the opposite order (a stage of the pipe's shape)"""
     return pipe.with_stage('reverse', None)
@@ -91,6 +90,17 @@ def seq_reversed(I, pipe):
 seq_method = _unsup('sequence method')
 sym_range = _unsup('range with symbolic bound')
 rl_slice = _unsup('slice of run-length string')
+
+
+def seq_sum(I, pipe, start):
+    """sum over a symbolic sequence whose elements are all the same integer constant: constant * length"""
+    from .interp import zint, simp
+    pred, keys, v = pipe.eval_at('i')
+    if isinstance(v, bool) or not isinstance(v, int):
+        raise Unsupported('sum over a symbolic sequence of non-constant values')
+    n = I.pipes.observable(pipe, 'len')
+    total = simp(zint(n) * v) if v != 1 else n
+    return total if start == 0 else simp(zint(total) + zint(start))
 
 
 def seq_enumerate(I, pipe, start):
